@@ -127,8 +127,8 @@ def _nontrivial_match(sans, cn, host, flag):
 
 # ---------------------------------------------------------------- generators
 
-IPS4 = ["1.2.3.4", "1.2.3.5", "127.0.0.1", "10.0.0.1"]
-IPS6 = ["::1", "0:0:0:0:0:0:0:1", "0000:0000:0000:0000:0000:0000:0000:0001", "fe80::1", "FE80::1", "fe80:0::1", "::ffff:1.2.3.4", "::ffff:102:304", "2001:db8::a", "2001:DB8:0:0::A", "::2"]
+IPS4 = ["1.2.3.4", "1.2.3.5", "127.0.0.1", "10.0.0.1", "0.0.0.1", "0.0.0.0", "0.0.0.2"]
+IPS6 = ["::1", "0:0:0:0:0:0:0:1", "0000:0000:0000:0000:0000:0000:0000:0001", "fe80::1", "FE80::1", "fe80:0::1", "::ffff:1.2.3.4", "::ffff:102:304", "2001:db8::a", "2001:DB8:0:0::A", "::2", "::", "::1.2.3.4", "::102:304", "::0.0.0.1"]
 
 
 def _hyp_matches():
@@ -235,6 +235,7 @@ def shards(tier, seed):
     nsh = 16 if tier == "quick" else 128
     for a, b in core.split_range(len(nm), nsh):
         out.append({"part": "pairs", "K": K, "lo": a, "hi": b})
+    out.append({"part": "ip-pairs"})
     n1 = _scale(40000 if tier == "quick" else 1000000)
     n2 = _scale(20000 if tier == "quick" else 200000)
     rs = 16 if tier == "quick" else 64
@@ -264,6 +265,16 @@ def run_shard(spec):
                         col.evaluations += 1
                         if nt:
                             col.nontrivial_counted += 1
+    elif part == "ip-pairs":
+        # every IP SAN against every IP host in every spelling (plain, bracketed, zoned, SAN with a trailing newline)
+        for san_ip in IPS4 + IPS6:
+            for host_ip in IPS4 + IPS6:
+                for san_txt in (san_ip, san_ip + "\n", san_ip.upper()):
+                    for host in (host_ip, "[" + host_ip + "]") + ((host_ip + "%eth0", "[" + host_ip + "%25eth0]") if ":" in host_ip else ()):
+                        sans = [("IP Address", san_txt)]
+                        case = {"kind": "match", "sans": sans, "cn": None, "host": host, "flag": False}
+                        want = refname.decide(sans, None, host, False)
+                        col.case(case, True, ["ip-pairs:" + want], check_match(sans, None, host, False, True), distinct_by_construction=True)
     elif part == "lists":
 
         def body(t):
